@@ -5,6 +5,9 @@ from . import sha_ref
 SPEC = dict(
     level='exploration',
     rule='case = one message (chunk sweep: one of lengths 0..300 x {seeded, all-zero, all-0xff} content; rand: random length up to 70000; big: one long pattern message; '
+         'huge (plain -O2 build, one case per process): one message whose BIT length needs (or just does not need) more than 32 bits - 2^29-1, 2^29, 2^29+seeded, 2^30+seeded bytes, thorough also '
+         '2^31, 2^32-1, 2^32, 2^32+seeded, 2^33 bytes - made of one seeded 2^20-byte splitmix64 block repeated and fed in seeded pieces of 0 bytes .. 2 MiB from a 2 MiB window, or passed in ONE '
+         'hash() / hmac() call (seeded key length 0..200) as a contiguous read-only mapping of that block repeated, so no case holds more than ~4 MiB; the digests / MACs are recomputed offline by hashlib / hmac over the same block; '
          'hmac: one key length 0..200 x content kind with message lengths {0,1,55,56,63,64,65,119,120,1000}; hmac-rand: random key <400 / message <3000; '
          'alias: calls whose 32-byte result buffer is (part of) an input buffer - case kind = index mod 6: hmac result == start of the key buffer (key lengths 0..200 in turn, buffer of '
          'exactly max(len,32) bytes, 14 message lengths), hmac result overlapping the key / the message / both at arbitrary offsets of a shared exactly-sized block, '
@@ -30,6 +33,8 @@ SPEC = dict(
     technique='reference-implementation comparison (online self-consistency + offline hashlib/hmac over a recorded log), exhaustive small sub-spaces',
     exhaustive={Q: True, T: True},
     jobs=[
+        # first in the list: its few long-running single-case processes start at once and run alongside everything else
+        job('huge', 'h_sha', 'huge', variant='plain', cases={Q: 6, T: 14}, procs={Q: 6, T: 14}, rec=True, timeout=3000),
         job('chunk-q', 'h_sha', 'chunk-q', cases={Q: -1, T: 0}, procs=16, rec=True),
         job('chunk-t', 'h_sha', 'chunk-t', cases={Q: 0, T: -1}, procs=16, rec=True),
         job('rand', 'h_sha', 'rand', cases={Q: 8000, T: 80000}, procs=16, rec=True),
@@ -44,22 +49,25 @@ SPEC = dict(
     floors={Q: dict(digests=500000, updates=1500000, chunkings2=300000, chunkings3=500000, chunkings_k=10000, single_byte_runs=900, hmacs=10000,
                     hasher_reuse_after_finalize=100000, hasher_reset_mid_message=100000, offline_digests_compared=4900, offline_macs_compared=10000,
                     offline_vectors_compared=12, long_messages=5,
+                    huge_messages=6, huge_chunked=4, huge_one_shot=1, huge_hmacs=1, huge_messages_of_2p29_bytes_or_more=5, offline_huge_results_compared=6, offline_huge_results_of_2p29_bytes_or_more=5,
                     alias_hmac_result_is_key_buffer=8000, alias_hmac_result_overlaps_key=3000, alias_hmac_result_in_middle_of_key=1000, alias_hmac_result_in_message_of_32_or_more=2000,
                     alias_hmac_result_in_middle_of_message=1000, alias_hmac_shared_block=3000, alias_hmac_result_overlaps_key_and_message=300, alias_hash_result_in_data=3000,
                     alias_finalize_into_last_input=3000, alias_results_compared=25000, alias_bytes_outside_result_compared=500000, offline_aliased_results_compared=20000,
                     mt_cases=360, mt_results_compared=1000000, mt_static_hash_digests=150000, mt_reused_hasher_digests=150000, mt_fresh_hasher_digests=150000, mt_static_hmacs=150000,
                     mt_hmacs_from_own_hashers=150000, mt_control_results_compared=16000, mt_expected_digests_recorded=5000, mt_expected_macs_recorded=3000,
                     mt_cases_with_observed_overlap=250, mt_thread_rounds_during_which_another_thread_advanced=10000, mt_max_threads=8, **{'set:mt_thread_counts': 7},
-                    **{'set:padding_classes': 6, 'set:hmac_key_classes': 4, 'set:bit_length_classes': 2, 'set:alias_key_classes': 5}),
+                    **{'set:padding_classes': 6, 'set:hmac_key_classes': 4, 'set:bit_length_classes': 2, 'set:alias_key_classes': 5, 'set:huge_length_classes': 3}),
             T: dict(digests=14000000, updates=35000000, chunkings2=500000, chunkings3=13000000, chunkings_k=300000, single_byte_runs=900, hmacs=200000,
                     lengths_with_all_3way_splits=903, hasher_reuse_after_finalize=100000, hasher_reset_mid_message=100000,
                     offline_digests_compared=80000, offline_macs_compared=200000, offline_vectors_compared=12, long_messages=7,
+                    huge_messages=14, huge_chunked=9, huge_one_shot=3, huge_hmacs=2, huge_messages_of_2p29_bytes_or_more=13, huge_messages_of_2p32_bytes_or_more=5,
+                    offline_huge_results_compared=14, offline_huge_results_of_2p29_bytes_or_more=13,
                     alias_hmac_result_is_key_buffer=160000, alias_hmac_result_overlaps_key=60000, alias_hmac_result_in_middle_of_key=20000, alias_hmac_result_in_message_of_32_or_more=40000,
                     alias_hmac_result_in_middle_of_message=20000, alias_hmac_shared_block=60000, alias_hmac_result_overlaps_key_and_message=6000, alias_hash_result_in_data=60000,
                     alias_finalize_into_last_input=60000, alias_results_compared=500000, alias_bytes_outside_result_compared=10000000, offline_aliased_results_compared=400000,
                     mt_cases=4800, mt_results_compared=13000000, mt_static_hash_digests=2500000, mt_reused_hasher_digests=2500000, mt_fresh_hasher_digests=2500000, mt_static_hmacs=2500000,
                     mt_hmacs_from_own_hashers=2500000, mt_control_results_compared=220000, mt_expected_digests_recorded=65000, mt_expected_macs_recorded=43000,
                     mt_cases_with_observed_overlap=3500, mt_thread_rounds_during_which_another_thread_advanced=150000, mt_max_threads=8, **{'set:mt_thread_counts': 7},
-                    **{'set:padding_classes': 6, 'set:hmac_key_classes': 4, 'set:bit_length_classes': 4, 'set:alias_key_classes': 5})},
+                    **{'set:padding_classes': 6, 'set:hmac_key_classes': 4, 'set:bit_length_classes': 4, 'set:alias_key_classes': 5, 'set:huge_length_classes': 6})},
     post=sha_ref.post,
 )
